@@ -24,7 +24,9 @@ func (tb *tokenBucket) adjustOnFailure(statusCode int) {
 	// For server errors like 503 or 5xx, reduce the refill rate exponentially.
 	case statusCode >= 500:
 		tb.failureCount++
-		newRefillRate := max(tb.refillRate*math.Pow(0.5, float64(tb.failureCount)), minRefillRate)
+		// Never go below the floor, but a configured rate lower than the floor is its own floor:
+		// a failure must not raise the rate above what the operator asked for.
+		newRefillRate := max(tb.refillRate*math.Pow(0.5, float64(tb.failureCount)), min(minRefillRate, tb.idealRate))
 		tb.refillRate = newRefillRate
 		tb.tokens = 0
 
